@@ -215,6 +215,45 @@ Proof.
     apply (inv_commit sz g1 p g'' Hs Hi1); cbn; assumption.
 Qed.
 
+(* a round of ReadFrom on a ghost state *)
+Lemma read_from_inv sz g blk p : 0 < sz -> inv sz g -> 0 <= blk ->
+  match r_read_from_round (g_ring g) blk p with
+  | (r', ROk p') => inv sz (mkG r' (g_stream g ++ p') (g_consumed g))
+  | (r', _) => inv sz (mkG r' (g_stream g) (g_consumed g))
+  end.
+Proof.
+  intros Hs Hi Hblk. unfold r_read_from_round, r_write_wait.
+  destruct (wfs (g_ring g) blk) as [r1 x] eqn:Ew.
+  destruct x as [start| | | |];
+    try (rewrite (wfs_other sz g _ r1 _ Hi Ew) by discriminate; now rewrite g_eta).
+  destruct (wfs_ok sz g blk r1 start Hi Hblk Ew) as (-> & g' & -> & Hg' & Hroom).
+  set (r1 := mkRing (size (g_ring g)) (buf (g_ring g)) (pseq (g_ring g)) (cseq (g_ring g)) g' (done (g_ring g))).
+  set (g1 := mkG r1 (g_stream g) (g_consumed g)).
+  assert (Hi1 : inv sz g1) by (apply inv_gate; assumption).
+  pose proof Hi as (Hsz & _).
+  pose proof (Z.mod_pos_bound (pseq (g_ring g)) sz Hs) as Hb.
+  (* the window is at most blk bytes long *)
+  set (l := if size r1 <? pseq (g_ring g) mod size r1 + blk then size r1 - pseq (g_ring g) mod size r1 else blk).
+  assert (Hl : l <= blk). { unfold l, r1; cbn [size]; rewrite Hsz; generalize (pseq (g_ring g) mod sz); intro m. destruct (sz <? m + blk) eqn:E; clear - E; lia. }
+  assert (Hshape : (if size r1 <? pseq (g_ring g) mod size r1 + blk
+                    then (r1, ROk (pseq (g_ring g) mod size r1, size r1 - pseq (g_ring g) mod size r1, true))
+                    else (r1, ROk (pseq (g_ring g) mod size r1, blk, false)))
+                   = (r1, ROk (pseq (g_ring g) mod size r1, l, size r1 <? pseq (g_ring g) mod size r1 + blk)))
+    by (unfold l; destruct (_ <? _); reflexivity).
+  rewrite Hshape. set (p' := firstn (Z.to_nat l) p).
+  assert (Hp' : Z.of_nat (length p') <= blk) by (unfold p'; rewrite firstn_length; lia).
+  assert (Hif : inv sz (mkG (r_fill r1 p') (g_stream g) (g_consumed g))) by (apply (inv_fill sz g1 p' Hs Hi1); cbn; lia).
+  unfold r_write_commit.
+  destruct (wfs (r_fill r1 p') (Z.of_nat (length p'))) as [r2 y] eqn:Ew2.
+  set (gf := mkG (r_fill r1 p') (g_stream g) (g_consumed g)) in *.
+  change (r_fill r1 p') with (g_ring gf) in Ew2.
+  destruct y as [start2| | | |];
+    try (rewrite (wfs_other sz gf _ r2 _ Hif Ew2) by discriminate; exact Hif).
+  destruct (wfs_ok sz gf (Z.of_nat (length p')) r2 start2 Hif (Zle_0_nat _) Ew2) as (-> & g'' & -> & Hg'' & Hroom2).
+  cbn [size buf pseq cseq gate done gf g_ring r_fill r1] in *.
+  apply (inv_commit sz g1 p' g'' Hs Hi1); cbn; assumption.
+Qed.
+
 (* the bytes at the consumer cursor are the next bytes of the stream *)
 Lemma peek_slice sz g k : 0 < sz -> inv sz g -> 0 <= k -> cseq (g_ring g) + k <= pseq (g_ring g) ->
   ring_get (size (g_ring g)) (buf (g_ring g)) (cseq (g_ring g)) (Z.to_nat k) = slice (g_stream g) (cseq (g_ring g)) (Z.to_nat k).
@@ -230,14 +269,15 @@ Definition shows (g : gst) (o : option (list N)) : Prop :=
 
 Lemma allowed_cases op : allowed op = true ->
   (exists p, op = 1%N :: p) \/ (exists p, op = 11%N :: p) \/ (exists n, op = [5%N; n]) \/ (exists n, op = [6%N; n])
-  \/ (exists n, op = [7%N; n]) \/ (exists n, op = [8%N; n]) \/ op = [9%N] \/ op = [10%N].
+  \/ (exists n, op = [7%N; n]) \/ (exists n, op = [8%N; n]) \/ op = [9%N] \/ op = [10%N]
+  \/ (exists blk p, op = 12%N :: blk :: p).
 Proof.
   unfold allowed. intros Ha.
   destruct op as [|c rest]; [discriminate|].
   destruct c as [|c]; [discriminate|].
   destruct c as [c|c|]; try destruct c as [c|c|]; try destruct c as [c|c|]; try destruct c as [c|c|]; try discriminate;
     try (left; eexists; reflexivity); try (right; left; eexists; reflexivity);
-    destruct rest as [|n [|? ?]]; try discriminate; eauto 12.
+    destruct rest as [|n [|? ?]]; try discriminate; eauto 14.
 Qed.
 
 Lemma gstep_ok sz g op : 0 < sz -> inv sz g -> allowed op = true ->
@@ -245,7 +285,7 @@ Lemma gstep_ok sz g op : 0 < sz -> inv sz g -> allowed op = true ->
 Proof.
   intros Hs Hi Ha. pose proof Hi as (Hsz & Hl & Hst & Hco & H1 & H2 & Hg & Hpre & Hbuf).
   pose proof (Z.mod_pos_bound (cseq (g_ring g)) sz Hs) as Hb.
-  destruct (allowed_cases op Ha) as [(p & ->)|[(p & ->)|[(n & ->)|[(n & ->)|[(n & ->)|[(n & ->)|[->| ->]]]]]]];
+  destruct (allowed_cases op Ha) as [(p & ->)|[(p & ->)|[(n & ->)|[(n & ->)|[(n & ->)|[(n & ->)|[->|[->|(blk & p & ->)]]]]]]]];
     unfold gstep, shows.
   - (* 1: Write *) pose proof (write_inv sz g p Hs Hi) as H.
     destruct (r_write (g_ring g) p) as [r' y]. destruct y; cbn [fst snd]; (split; [exact H|discriminate]).
@@ -281,6 +321,8 @@ Proof.
     + rewrite g_eta. split; [exact Hi|discriminate].
   - (* 9: Close *) cbn [r_step fst snd]. split; [|discriminate]. unfold r_close. apply inv_done. exact Hi.
   - (* 10: state *) cbn [r_step fst snd]. rewrite g_eta. split; [exact Hi|discriminate].
+  - (* 12: a round of ReadFrom *) pose proof (read_from_inv sz g (Z.of_N blk) p Hs Hi ltac:(lia)) as H.
+    destruct (r_read_from_round (g_ring g) (Z.of_N blk) p) as [r' y]. destruct y; cbn [fst snd]; (split; [exact H|discriminate]).
 Qed.
 
 Lemma grun_inv sz : 0 < sz -> forall ops g, inv sz g -> forallb allowed ops = true -> inv sz (grun g ops).
@@ -306,9 +348,9 @@ Qed.
 
 Theorem gstep_ring_holds : gstep_ring.
 Proof.
-  intros g op Ha.
-  destruct (allowed_cases op Ha) as [(p & ->)|[(p & ->)|[(n & ->)|[(n & ->)|[(n & ->)|[(n & ->)|[->| ->]]]]]]];
-    unfold gstep; cbn [r_step].
+  intros g op Ha Hn12.
+  destruct (allowed_cases op Ha) as [(p & ->)|[(p & ->)|[(n & ->)|[(n & ->)|[(n & ->)|[(n & ->)|[->|[->|(blk & p & ->)]]]]]]]];
+    [| | | | | | | |now destruct (Hn12 blk p)]; unfold gstep; cbn [r_step].
   - destruct (r_write (g_ring g) p) as [r' y]; destruct y; reflexivity.
   - destruct (r_write_message (g_ring g) p) as [r' y]; destruct y; reflexivity.
   - destruct (r_read (g_ring g) (Z.of_N n)) as [r' y]; destruct y; reflexivity.
